@@ -63,7 +63,7 @@ type c18HCase struct {
 func (c *c18HCase) detail(extra map[string]any) map[string]any {
 	m := map[string]any{"schema": "c18HRow{a int64 plain, b string dict, c int64 plain, d string dict} (harness/props/c18_history.go)",
 		"encryption": c.Enc.Desc(), "bloom_filter_columns": c.Bloom, "page_statistics": c.Stats,
-		"calls": c.Script, "options": "PageBufferSize(64MiB) MaxRowsPerRowGroup(0): no page or row group is cut unless a call says so"}
+		"calls": c.Script, "options": "PageBufferSize(1MiB) MaxRowsPerRowGroup(0): no page or row group is cut unless a call says so"}
 	for k, v := range extra {
 		m[k] = v
 	}
@@ -90,7 +90,7 @@ func c18HRun(r *rand.Rand) (hc *c18HCase) {
 			hc.Bloom = append(hc.Bloom, c)
 		}
 	}
-	opts := []parquet.WriterOption{schema, parquet.PageBufferSize(64 << 20), parquet.MaxRowsPerRowGroup(0),
+	opts := []parquet.WriterOption{schema, parquet.PageBufferSize(1 << 20), parquet.MaxRowsPerRowGroup(0),
 		parquet.DataPageStatistics(hc.Stats), parquet.WithEncryption(hc.Enc.Config())}
 	if len(hc.Bloom) > 0 {
 		var fs []parquet.BloomFilterColumn
@@ -293,7 +293,7 @@ func RunC18History(ctx *core.Ctx) {
 	if d == nil {
 		return
 	}
-	ncases := ctx.Scale(600, 6000)
+	ncases := ctx.Scale(2000, 20000)
 	cases := make([]*c18HCase, ncases)
 	var wg sync.WaitGroup
 	for w := 0; w < 16; w++ {
@@ -369,6 +369,15 @@ func RunC18History(ctx *core.Ctx) {
 				ctx.Fail("L1", "history-footer-unreadable", "the AAD parameters of a closed file cannot be read: "+e.Error(), det(nil))
 			}
 			fus[g] = fu
+		}
+		// files of one writer are different files: without a configured FileIdentifier they must not share the identifier
+		if hc.Enc.FileID == nil {
+			for g := 0; g < fi; g++ {
+				if len(fus[g]) > 0 && bytes.Equal(fus[g], fus[fi]) {
+					ctx.Fail("L1", "history-reset-reuses-file-identifier", fmt.Sprintf("files %d and %d of one writer (Reset in between, FileIdentifier nil) carry the same AadFileUnique %x: every module has the same AAD in both and can be transplanted between them", g, fi, fus[fi]), det(nil))
+					break
+				}
+			}
 		}
 		var missing []string
 		aadOf := func(prefix, fu []byte, kind string, rg, col, page int) []byte {
